@@ -309,6 +309,15 @@ def run_case(case: Dict) -> CaseResult:
         m.sess[i][sid] = s
         return s
 
+    def cred_labels(kind: str, i: int, user: str, token: str, pw: str):
+        if token in NEAR_PW:
+            res.label(f"cred:{kind}:near-miss-password")
+        if user in NEAR_USERS:
+            res.label(f"cred:{kind}:near-miss-user")
+        a = m.users[i].get(user)
+        if a is not None and a["pw"] != a["pw"].strip():
+            res.label(f"cred:{kind}:stored-password-has-whitespace:" + ("exact" if pw == a["pw"] else "other"))
+
     def resolve_pw(i: int, user: str, pw: str) -> str:
         """'@...' tokens are derived from the password the model holds for the account (for a near-miss user name: for
         the account it is a near-miss of), so the case stays a plain value and shrinks well."""
@@ -456,6 +465,7 @@ def run_case(case: Dict) -> CaseResult:
         if k == "local":
             _, t, user, pw = op
             pw = resolve_pw(t, user, pw)
+            cred_labels("local", t, user, op[3], pw)
             name = f"l{i}"
             t_on, t_term = on(t), term(t)
             reason = m.cred_reason(t, user, pw)
@@ -481,6 +491,7 @@ def run_case(case: Dict) -> CaseResult:
         if k == "login":
             _, c, t, user, pw = op
             pw = resolve_pw(t, user, pw)
+            cred_labels("login", t, user, op[4], pw)
             c_on, c_term, t_on, t_term = on(c), term(c), on(t), term(t)
             reason = m.cred_reason(t, user, pw)
             before = set(impl_sids(t))
